@@ -9,6 +9,7 @@ def build(u):
     u.drop_async = True
     u.raw("use vstd::prelude::*;\nverus! {\n")
     u.env("prelude.rs")
+    u.env("std_extra.rs")
     u.canary_decls()
     u.env("anyhow.rs")
     u.env("rpc_env.rs")
